@@ -64,6 +64,24 @@ CHECKS["C09"] = dict(
          "(a granted thread that does not reach its next point within 30 ms is treated as waiting for a lock).",
     ref="6/C09")
 
+CHECKS["C04"] = dict(
+    technique="Coq proof (canonical JSON: insertion sort on keys is order-independent; keyword dictionaries equal as finite maps have equal pre-images; keyword order irrelevance through _compute_effective_kwargs) + exact differential check: SHA-256 of the model's pre-image bytes vs arg_hash",
+    text="Theorems over Codec/Json.v + Codec/ArgHash.v: the normalized JSON of an object does not depend on member order at any depth; two effective-kwargs dictionaries binding equal values to the same names have the same pre-image; "
+         "keyword order is irrelevant for every signature / partial application / positional split; the body receives exactly the kwargs the key was computed from; non-empty context args are a member of the hashed dictionary. "
+         "The model prints the exact pre-image bytes (Python's ensure_ascii escaping, surrogate pairs, decimal integers); the harness hashes them with hashlib and compares with the implementation for generated bindings in paired presentations, "
+         "and checks hit / miss and minimally different bindings directly.",
+    note="Injectivity ('differs whenever a bound value or its type differs') is established for concrete type pairs by computation and checked on generated minimally-different bindings, not proved in general (it is exact only up to SHA-256 collisions and needs "
+         "the no-'_mementoType'-key hypothesis); equivalence of positional / partial / keyword presentations beyond keyword order is shown on instances and by the differential check. Float repr and isoformat are oracles.",
+    ref="6/C04")
+CHECKS["C11"] = dict(
+    technique="Coq proof (decode (encode x) = x by nested structural induction for arguments, function references, references with arguments and mementos; key#version split; emitted documents satisfy the frozen format predicate) + byte-exact differential check of the emitted JSON + implementation round trip",
+    text="Theorems over Codec/Wire.v: decode_arg/decode_fnref/decode_memento invert the encoders for every well-formed value of any nesting depth (all 12 components of a memento), the argument hash recomputed from decoded arguments is the original, "
+         "key#version splits back at the last '#' (refuted for the first '#'; the source fact says rfind), every emitted memento has exactly the frozen member names in the frozen order and typed {type,value} arguments. "
+         "Implementation: json.dumps(encode_memento(m)) is compared byte for byte with the model's rendering; encode -> dumps -> strict RFC 8259 parse -> decode is compared component-wise.",
+    note="dateutil / isoformat are oracles (isoformat never ends in 'Z'); from_qualified_name is the identity on a reference's parts here (its behaviour is C12). numpy-array and bytes arguments are outside the modelled domain. "
+         "Known finding: NaN / Infinity tokens are not RFC 8259 JSON.",
+    ref="6/C11")
+
 NOT_YET = {}
 
 
